@@ -131,6 +131,12 @@ _add("C07", _glob("dead_all_histories", "dead_every_boundary", "c07_no_dead_full
 _add("C08", _glob("c08_logoutUser", "c08_refresh", "c08_refresh_users", "c08_missing_skipped", "c08_login", "c08_login_HL", "c08_logout",
                   "c08_after_logoutUser", "logoutUser_delta", "refreshUser_delta", "hlogin_delta", "hlogout_delta"))
 _add("C02", _glob("c07_no_resurrection", "c01_isolation"))
+# history-level statements for C04 (Proofs/Global/Rotate04*) and the second half of C03 (Proofs/Global/Active03*)
+_add("C04", _glob("rot4_step", "rot4_all_histories", "c04_rotated_once", "c04_never_full_again", "c04_one_target", "c04_replaced_not_minted",
+                  "c04_req_mints", "c04_one_mint_per_due_id", "c04_rotation_count", "c04_presented_mints_once", "c04_mints_count",
+                  "c04_same_session", "c04_same_handle"))
+_add("C03", _glob("knows_all_histories", "c03_active_not_stale", "c03_active_kept_id", "c03_expired_sound_global", "c03_expired_refused",
+                  "linked_all_histories", "c03_active_kept", "c03_active_kept_client"))
 # histories WITH store faults, every oracle (Proofs/Global/Faulty11*)
 _add("C11", _glob("sinv_step", "sinv_all_histories", "sinv_every_boundary", "store_follows_events", "step_store_follows_events",
                   "hist_store_follows_events", "c11_failed_call_changes_nothing", "start_failed_load_quiet", "start_del_cases",
